@@ -1,5 +1,6 @@
 import SiaModel.Ledger.Model
 import SiaProofs.Lemmas.LedgerC01Fees
+import SiaProofs.Lemmas.LedgerC01WF
 /-! # C01 — value conservation (see DESIGN.md §6 C01)
 
 The ledger model is `SiaModel/Ledger/Model.lean`; helper lemmas are in
@@ -98,5 +99,161 @@ theorem c01_claim_exact {pool cs : Cur} {v : Nat} {c : Cur} :
     claimPortion pool cs v = .ok c ↔
       (cs ≤ pool ∧ (pool - cs) / 10000 * v < curLimit ∧ c = (pool - cs) / 10000 * v) :=
   claimPortion_ok
+
+/-! ## 2. Conservation of value, block level
+
+`V L` (`Sia.Ledger.V`) = Σ unspent siacoin outputs + Σ valid-output totals of unresolved v1 contracts +
+Σ (renter + host) of unresolved v2 contracts + the siafund tax pool.
+
+Hypotheses (all explicit, none an axiom):
+* `WF L` — ids of live elements pairwise distinct across kinds; every v1 contract has equal valid/missed totals;
+  every v2 contract has `missedHost ≤ host.value`; siafund supply < 2^64; parameters for which
+  `FoundationSubsidy` cannot panic.  Preserved by every accepted block (`c01_wf_preserved`).
+* `FreshIds L b` — hash-collision freedom: the ids the block creates are pairwise distinct and new.
+* `L.child ≥ L.P.ephemeralFix` — the legacy window of the ephemeral-output fix is closed.
+* `SfNoWrap b` — per-transaction siafund output sums do not wrap a uint64 (in Go: block weight limit).
+* `IdListsCover L b pid` — the finite lists standing for `ValidOutputID(i)` / `MissedOutputID(i)` are long enough
+  (a modelling artefact: in Go the id exists for every index).
+
+Ghost quantities: `b.claims L` — sum over all spent siafund inputs of
+`⌊(pool at spend − claimStart)/10000⌋ · value` (`Sia.Ledger.claimVal`); `b.forfeits` — Σ over v2 expirations of
+`host.value − missedHost`; `subsidyVal L` — the value `foundationSubsidy L` schedules (0 if none). -/
+
+/-- No value is created or destroyed by an accepted block. -/
+theorem c01_block_conserves {L : Ledger} {b : Block} {pid : Id} {msv : Mid}
+    (hw : WF L) (hf : FreshIds L b) (hfix : L.child ≥ L.P.ephemeralFix) (hnw : SfNoWrap b)
+    (hcov : IdListsCover L b pid) (hv : validateBlock L b pid = .ok msv) :
+    ∃ L' ms, applyBlock L b = .ok (L', ms) ∧
+      V L' + b.forfeits = V L + blockReward L + subsidyVal L + b.claims L := by
+  obtain ⟨ms, hm, _, _, hP, _⟩ := block_conserves hw hf hfix hnw hcov hv
+  refine ⟨ms.commit b.blockId, ms, ?_, ?_⟩
+  · unfold applyBlock; rw [hm]; rfl
+  · rw [V_commit]; exact hP
+
+/-- The number of siafunds in unspent outputs never changes. -/
+theorem c01_siafunds_constant {L : Ledger} {b : Block} {pid : Id} {msv : Mid}
+    (hw : WF L) (hf : FreshIds L b) (hfix : L.child ≥ L.P.ephemeralFix) (hnw : SfNoWrap b)
+    (hcov : IdListsCover L b pid) (hv : validateBlock L b pid = .ok msv) :
+    ∀ L' ms, applyBlock L b = .ok (L', ms) → SFtot L' = SFtot L := by
+  obtain ⟨ms, hm, _, _, _, hS⟩ := block_conserves hw hf hfix hnw hcov hv
+  intro L' ms' h
+  unfold applyBlock at h; rw [hm] at h; cases h
+  rw [SF_commit]; exact hS
+
+/-- Well-formedness (and with it every hypothesis on the ledger) is preserved by an accepted block. -/
+theorem c01_wf_preserved {L : Ledger} {b : Block} {pid : Id} {msv : Mid}
+    (hw : WF L) (hf : FreshIds L b) (hfix : L.child ≥ L.P.ephemeralFix) (hnw : SfNoWrap b)
+    (hcov : IdListsCover L b pid) (hv : validateBlock L b pid = .ok msv) :
+    ∀ L' ms, applyBlock L b = .ok (L', ms) → WF L' ∧ L'.child = L.child + 1 ∧ L'.P = L.P := by
+  obtain ⟨ms, hm, hI, hb, _, hS⟩ := block_conserves hw hf hfix hnw hcov hv
+  intro L' ms' h
+  unfold applyBlock at h; rw [hm] at h; cases h
+  have hc : Ctx (Tb L b) ms.base := by rw [hb]; exact ctx_of_wf hw hf
+  refine ⟨wf_commit hc (by rw [hb]; exact hw) hI (by rw [hS, hb]) b.blockId, ?_, ?_⟩
+  · show ms.base.child + 1 = L.child + 1; rw [hb]
+  · show ms.base.P = L.P; rw [hb]
+
+/-! ## Chains -/
+
+/-- what is assumed of one block relative to the ledger it extends -/
+structure BlockHyps (L : Ledger) (b : Block) (pid : Id) : Prop where
+  fresh : FreshIds L b
+  nowrap : SfNoWrap b
+  cover : IdListsCover L b pid
+  valid : ∃ ms, validateBlock L b pid = .ok ms
+
+/-- apply a list of (block, parent block id) pairs -/
+def runChain : Ledger → List (Block × Id) → Option Ledger
+  | L, [] => some L
+  | L, (b, _) :: rest =>
+    match applyBlock L b with
+    | .ok (L', _) => runChain L' rest
+    | .error _ => none
+
+/-- every block of the chain is accepted by validation and satisfies the per-block hypotheses -/
+def ChainHyps : Ledger → List (Block × Id) → Prop
+  | _, [] => True
+  | L, (b, pid) :: rest => BlockHyps L b pid ∧ ∀ L' ms, applyBlock L b = .ok (L', ms) → ChainHyps L' rest
+
+/-- scheduled issuance plus siafund claims along a chain -/
+def chainMinted : Ledger → List (Block × Id) → Nat
+  | _, [] => 0
+  | L, (b, _) :: rest =>
+    blockReward L + subsidyVal L + b.claims L +
+    (match applyBlock L b with
+      | .ok (L', _) => chainMinted L' rest
+      | .error _ => 0)
+
+/-- value forfeited by missed v2 expirations along a chain -/
+def chainForfeits : Ledger → List (Block × Id) → Nat
+  | _, [] => 0
+  | L, (b, _) :: rest =>
+    b.forfeits +
+    (match applyBlock L b with
+      | .ok (L', _) => chainForfeits L' rest
+      | .error _ => 0)
+
+/-- Supply conservation along any accepted chain (hence for every prefix of it): the value function equals the
+starting allocation plus every scheduled subsidy plus claims paid, minus forfeits; siafunds are constant; the
+final ledger is well-formed again. -/
+theorem c01_chain_conserves (bs : List (Block × Id)) : ∀ (L0 : Ledger), WF L0 → L0.child ≥ L0.P.ephemeralFix →
+    ChainHyps L0 bs →
+    ∃ L, runChain L0 bs = some L ∧ WF L ∧
+      V L + chainForfeits L0 bs = V L0 + chainMinted L0 bs ∧ SFtot L = SFtot L0 := by
+  induction bs with
+  | nil => intro L0 hw _ _; exact ⟨L0, rfl, hw, rfl, rfl⟩
+  | cons x rest ih =>
+    intro L0 hw hfix hch
+    obtain ⟨b, pid⟩ := x
+    obtain ⟨⟨hf, hnw, hcov, msv, hv⟩, hnext⟩ := hch
+    obtain ⟨L', ms, ha, hV⟩ := c01_block_conserves hw hf hfix hnw hcov hv
+    obtain ⟨hw', hch', hP'⟩ := c01_wf_preserved hw hf hfix hnw hcov hv L' ms ha
+    have hS := c01_siafunds_constant hw hf hfix hnw hcov hv L' ms ha
+    have hfix' : L'.child ≥ L'.P.ephemeralFix := by rw [hch', hP']; omega
+    obtain ⟨L, hr, hwL, hVL, hSL⟩ := ih L' hw' hfix' (hnext L' ms ha)
+    refine ⟨L, ?_, hwL, ?_, hSL.trans hS⟩
+    · unfold runChain; rw [ha]; exact hr
+    · unfold chainForfeits chainMinted; rw [ha]; simp only []
+      omega
+
+/-! ## 4 (continued). Every claim output carries exactly the holder's share -/
+
+/-- v2: the step that spends siafund input `sfi` creates the claim output `sfi.claimId` with value
+`⌊(pool − claimStart)/10000⌋ · value`, the pool being the one in force when the input is spent. -/
+theorem c01_claim_exact_v2 {ms ms' : Mid} {sfi : SfIn2} (h : stepSfIn2 ms sfi = .ok ms') :
+    sfi.parent.claimStart ≤ ms.pool ∧
+    ms' = (ms.spendSf sfi.parent).createImmatureSc sfi.claimId
+      { value := (ms.pool - sfi.parent.claimStart) / 10000 * sfi.parent.value, addr := sfi.claimAddr } := by
+  unfold stepSfIn2 at h
+  rw [bind_eq_ok] at h; obtain ⟨c, hc, h⟩ := h
+  cases h
+  have hp : (ms.spendSf sfi.parent).pool = ms.pool := by
+    unfold Mid.spendSf; exact putSf_pool _ _ _
+  rw [hp, claimPortion_ok] at hc
+  exact ⟨hc.1, by rw [hc.2.2]⟩
+
+/-- v1: same statement, for the siafund element `e` the input's parent id resolves to. -/
+theorem c01_claim_exact_v1 {ms ms' : Mid} {supp : Supp1} {sfi : SfIn1} (h : stepSfIn1 supp ms sfi = .ok ms') :
+    ∃ e, ms.sfElement supp sfi.parent = some e ∧ e.id = sfi.parent ∧ e.claimStart ≤ ms.pool ∧
+    ms' = (ms.spendSf e).createImmatureSc sfi.claimId
+      { value := (ms.pool - e.claimStart) / 10000 * e.value, addr := sfi.claimAddr } := by
+  unfold stepSfIn1 at h
+  cases he : ms.sfElement supp sfi.parent with
+  | none => rw [he] at h; cases h
+  | some e =>
+    rw [he] at h; simp only [] at h
+    rw [bind_eq_ok] at h; obtain ⟨c, hc, h⟩ := h
+    cases h
+    rw [claimPortion_ok] at hc
+    exact ⟨e, rfl, c01_lookup_checks_kind_sf he, hc.1, by rw [hc.2.2]⟩
+
+/-- the siafund-input loops never move the pool, so "pool at spend" is the pool at the start of the transaction -/
+theorem c01_claim_pool_fixed {T} {ms ms' : Mid} {t : Txn2} {mw : Nat} {R : List (Kind × Id)}
+    (hc : Ctx T ms.base) (hfix : ms.base.child ≥ ms.base.P.ephemeralFix) (hI : Inv T ms)
+    (hF : Fresh T ms (t.created ++ R))
+    (hnw : (t.sfOuts.map (·.2.1)).sum < u64Limit) (hsfb : sfTot ms < u64Limit)
+    (hv : validateV2Transaction ms t mw = .ok ()) (ha : applyV2Transaction ms t = .ok ms') :
+    Phi ms' + t.fee + t.forfeits = Phi ms + t.claims ms.pool :=
+  (v2txn_conserves hc hfix hI hF hnw hsfb hv ha).2.2.2.1
 
 end C01
